@@ -315,15 +315,34 @@ func checkNarrowing(c *Ctx, f *ssa.Function, cv *ssa.Convert) {
 			}
 		}
 		lo, hi := math.Max(il, bd.lo), math.Min(ih, bd.hi)
-		// comparisons against interval-valued operands: x <= conv[int](uint8)
+		// comparisons against interval-valued operands: x <= conv[int](uint8), ¬(x > conv[int](MaxTTL)), ...
 		for _, a := range atoms {
 			n := a.Norm()
-			if n.Cond.Op == "binop" && n.Sign && (n.Cond.Name == "<=" || n.Cond.Name == "<") && n.Cond.Args[0].Key() == op.Key() {
-				_, yh := interval(n.Cond.Args[1], 0)
-				if n.Cond.Name == "<" {
-					yh--
-				}
+			if n.Cond.Op != "binop" {
+				continue
+			}
+			opn := n.Cond.Name
+			x, y := n.Cond.Args[0], n.Cond.Args[1]
+			if y.Key() == op.Key() {
+				x, y = y, x
+				opn = map[string]string{"<": ">", "<=": ">=", ">": "<", ">=": "<="}[opn]
+			}
+			if x.Key() != op.Key() || opn == "" {
+				continue
+			}
+			if !n.Sign {
+				opn = map[string]string{"<": ">=", "<=": ">", ">": "<=", ">=": "<"}[opn]
+			}
+			yl, yh := interval(y, 0)
+			switch opn {
+			case "<":
+				hi = math.Min(hi, yh-1)
+			case "<=":
 				hi = math.Min(hi, yh)
+			case ">":
+				lo = math.Max(lo, yl+1)
+			case ">=":
+				lo = math.Max(lo, yl)
 			}
 		}
 		if lo >= tlo && hi <= thi {
@@ -413,7 +432,7 @@ func checkNarrowArith(c *Ctx) {
 			}
 		}
 	}
-	R.Floor("R19.2:narrow-arithmetic-sites", n, 5)
+	R.Floor("R19.2:narrow-arithmetic-sites", n, 3)
 }
 
 // narrowSink follows a value through conversions and phis to a size / index / bound use.
@@ -622,7 +641,7 @@ func checkTTLPlumbing(c *Ctx) {
 					env := core.NewEnv(c.P, pa)
 					mn := env.Term(call.Common().Args[idx[0]])
 					mx := env.Term(call.Common().Args[idx[1]])
-					okc := strings.HasSuffix(mn.StripConv().String(), "params.MinTTL") && strings.HasSuffix(mx.StripConv().String(), "params.MaxTTL")
+					okc := ttlOrigin(c, mn, 0) == "MinTTL" && ttlOrigin(c, mx, 0) == "MaxTTL"
 					R.Check(okc, "R19.4", fmt.Sprintf("%s#ttl-args[%s]", core.FuncName(f), core.FuncName(call.Common().StaticCallee())), call.Pos(), core.FuncName(f), "TTL bounds passed through conversions only", "TTL bounds are passed as "+mn.String()+" / "+mx.String())
 				}
 			}
@@ -782,4 +801,59 @@ func paramInterval(c *Ctx, f *ssa.Function, p *ssa.Parameter, depth int) (lo, hi
 		return 0, 0, false
 	}
 	return lo, hi, true
+}
+
+// ttlOrigin follows a TTL argument back to TracerouteParams.MinTTL / MaxTTL through conversions and
+// through module functions that hand one of their parameters back converted (range-checking pass-throughs).
+func ttlOrigin(c *Ctx, t *core.Term, depth int) string {
+	if depth > 4 {
+		return ""
+	}
+	for t.Op == "conv" {
+		t = t.Args[0]
+	}
+	if t.Op == "field" && (t.Name == "MinTTL" || t.Name == "MaxTTL") && (t.Args[0].Op == "param" || t.Args[0].Op == "free") {
+		return t.Name
+	}
+	if t.Op == "extract" && t.Args[0].Op == "call" {
+		call := t.Args[0]
+		var f *ssa.Function
+		for _, mf := range c.P.ModFuncs {
+			if shortName(mf) == call.Name {
+				f = mf
+			}
+		}
+		if f == nil {
+			return ""
+		}
+		idx := 0
+		fmt.Sscan(t.Name, &idx)
+		rps, _ := core.ReturnPaths(c.P, f, 2000)
+		pi := -1
+		for _, rp := range rps {
+			if len(rp.Results) == 0 || !rp.Results[len(rp.Results)-1].IsConst("nil") || idx >= len(rp.Results) {
+				continue
+			}
+			r := rp.Results[idx]
+			for r.Op == "conv" {
+				r = r.Args[0]
+			}
+			if r.Op != "param" {
+				return ""
+			}
+			for i, p := range f.Params {
+				if p.Name() == r.Name {
+					if pi >= 0 && pi != i {
+						return ""
+					}
+					pi = i
+				}
+			}
+		}
+		if pi < 0 || pi >= len(call.Args) {
+			return ""
+		}
+		return ttlOrigin(c, call.Args[pi], depth+1)
+	}
+	return ""
 }
